@@ -86,7 +86,9 @@ func ManageDeployment(client runtimeclient.Client, daemonset *datadoghqv1alpha1.
 				}
 			} else {
 				createdPods++
-				if podutils.IsPodAvailable(pod, 0, metaNow) {
+				// a pod that is being deleted is about to stop serving: like an outdated terminating pod
+				// (and like upstream DaemonSets do) it does not count as available for the update budget
+				if pod.DeletionTimestamp == nil && podutils.IsPodAvailable(pod, 0, metaNow) {
 					availablePods++
 				}
 				if podutils.IsPodReady(pod) {
